@@ -118,6 +118,21 @@ Arguments Ok {A}. Arguments Err {A}.
 Definition subseteqb (a b : cset) : bool := bool_decide (a ⊆ b).
 
 (* supply.AllocateCPU + bookkeeping of allocatePool *)
+(* the guard the code does not enforce (K2): an exclusive slice at p leaves every strict
+   descendant enough shared CPUs for what is granted below it *)
+Definition desc_safeb (t : tree) (s : st) (p : nat) (X : cset) : bool :=
+  forallb (fun d => negb (anc t p d) || Nat.eqb d p ||
+                    (granted_sub t (gr_shared s) d <=? 1000 * csize (free_shar s d ∖ X))) (pools t).
+
+(* ... and a pool whose sharable CPUs would all be gone must not host a container that runs on them: a grant of
+   the normal class without exclusive CPUs, or with a shared portion (sliceExclusiveCPUs / starvedBySlicing) *)
+Definition shared_user (g : grant) : bool :=
+  match g_type g with CpuNormal => bool_decide (g_excl g = ∅) || (0 <? g_portion g) | _ => false end.
+Definition has_shared_user (s : st) (d : nat) : bool :=
+  existsb (fun kv => Nat.eqb (g_pool (snd kv)) d && shared_user (snd kv)) (map_to_list (grants s)).
+Definition desc_users_okb (t : tree) (s : st) (p : nat) (X : cset) : bool :=
+  forallb (fun d => negb (anc t p d) || Nat.eqb d p || negb (bool_decide (free_shar s d ∖ X = ∅)) || negb (has_shared_user s d)) (pools t).
+
 (* "exclusive reserved CPUs not supported, allocating full CPUs as fractions" *)
 Definition eff_full (r : creq) : Z :=
   match r_type r with CpuReserved => if 0 <? r_full r then 0 else r_full r | _ => r_full r end.
@@ -136,7 +151,10 @@ Definition ta_alloc (t : tree) (s : st) (cid : nat) (r : creq) (p : nat) (X : cs
       if (full <=? csize (free_iso s p)) && r_isolate r then
         if subseteqb X (free_iso s p) && (csize X =? full) then Ok X else Err (ErrGuard 1)
       else if 1000 * full <? alloc_shared t s p then
-        if subseteqb X (free_shar s p) && (csize X =? full) then Ok X else Err (ErrGuard 2)
+        if subseteqb X (free_shar s p) && (csize X =? full) then
+          (* the slice leaves every pool below enough sharable CPUs for what is granted there (repair of K2) *)
+          if desc_safeb t s p X && desc_users_okb t s p X then Ok X else Err (ErrGuard 12)
+        else Err (ErrGuard 2)
       else Err ErrNoCapacity
     else if bool_decide (X = ∅) then Ok ∅ else Err (ErrGuard 3) in
   match excl with
@@ -326,12 +344,6 @@ Definition tree_wfb (t : tree) : bool :=
 (* C03 capacity clause on a state: every pool keeps 1000 mCPU per remaining shared CPU for its subtree *)
 Definition capacity_okb (t : tree) (s : st) : bool :=
   forallb (fun q => (granted_sub t (gr_shared s) q <=? 1000 * csize (free_shar s q))) (pools t).
-
-(* the guard the code does not enforce (K2): an exclusive slice at p leaves every strict
-   descendant enough shared CPUs for what is granted below it *)
-Definition desc_safeb (t : tree) (s : st) (p : nat) (X : cset) : bool :=
-  forallb (fun d => negb (anc t p d) || Nat.eqb d p ||
-                    (granted_sub t (gr_shared s) d <=? 1000 * csize (free_shar s d ∖ X))) (pools t).
 
 (* a history may span several configurations / restarts: one segment per pool tree *)
 Fixpoint check_segments (i : nat) (segs : list (tree * list (list op * obs))) : option (nat * mismatch) :=
